@@ -274,9 +274,38 @@ func c15ContainsLaw(c *Case) {
 			}
 		}
 	}
+	// the same textual call site re-entered through recursion while its arguments are evaluated
+	for _, prog := range []string{
+		"function nest(i) { if (i == 3) { return 'leaf' } a[i].push(nest(i + 1)); return i } BEGIN { a = [[], [], []]; nest(0); print json(a) }",
+		"function fill(i) { if (i == 0) { return 0 } return rows[i - 1].push(fill(i - 1)).length() } BEGIN { rows = [[9], [8, 8], [7, 7, 7]]; print fill(3), json(rows) }",
+		"function has(i) { if (i == 2) { return 5 } return sets[i].contains(has(i + 1)) } BEGIN { sets = [[true, 1], [5, 6]]; print has(0) }",
+	} {
+		c15RunText(c, prog)
+	}
 	// sort: stable, copy, numeric iff all numbers
 	sorts := []string{"[3, 1, 2]", "[10, 9, 2]", "['10', '9', 2]", "[true, 'a', null, 'A', 1]", "[[2], 'x', {k: 1}, '']", "[2, '2', 2.0, 'b', 'a']", "[]", "[1]", "[0.5, -1, 1e0]"}
 	_ = sorts
+}
+
+// c15RunText: fixed programs given as text together with their AST for the model
+func c15RunText(c *Case, prog string) {
+	var p *Program
+	a, rows, sets, i := V("a"), V("rows"), V("sets"), V("i")
+	switch {
+	case strings.HasPrefix(prog, "function nest"):
+		f := &Func{Name: "nest", Params: []string{"i"}, Body: Blk(&If{C: Bin("==", i, N("3")), Then: Blk(&Return{X: S("leaf")})}, ES(Meth(Idx(a, i), "push", CallE(V("nest"), Bin("+", i, N("1"))))), &Return{X: i})}
+		p = &Program{Items: []any{f, &Rule{Kind: "BEGIN", Body: Blk(asg(a, Arr(Arr(), Arr(), Arr())), ES(CallE(V("nest"), N("0"))), Pr(jsonOf(a)))}}}
+	case strings.HasPrefix(prog, "function fill"):
+		f := &Func{Name: "fill", Params: []string{"i"}, Body: Blk(&If{C: Bin("==", i, N("0")), Then: Blk(&Return{X: N("0")})},
+			&Return{X: Meth(Meth(Idx(rows, Bin("-", i, N("1"))), "push", CallE(V("fill"), Bin("-", i, N("1")))), "length")})}
+		p = &Program{Items: []any{f, &Rule{Kind: "BEGIN", Body: Blk(asg(rows, Arr(Arr(N("9")), Arr(N("8"), N("8")), Arr(N("7"), N("7"), N("7")))), Pr(CallE(V("fill"), N("3")), jsonOf(rows)))}}}
+	default:
+		f := &Func{Name: "has", Params: []string{"i"}, Body: Blk(&If{C: Bin("==", i, N("2")), Then: Blk(&Return{X: N("5")})}, &Return{X: Meth(Idx(sets, i), "contains", CallE(V("has"), Bin("+", i, N("1"))))})}
+		p = &Program{Items: []any{f, &Rule{Kind: "BEGIN", Body: Blk(asg(sets, Arr(Arr(&BoolLit{V: true}, N("1")), Arr(N("5"), N("6")))), Pr(CallE(V("has"), N("0"))))}}}
+	}
+	c.NonTrivial("recursive-site:" + prog)
+	c.Count("recursive_call_site_forms")
+	m2(c, &M2Case{Prog: p, Desc: "method call site re-entered through recursion"})
 }
 
 const c15NPairs = 13 * 13 * 4
@@ -285,7 +314,7 @@ func c15Cases(tier string) int {
 	if tier == "thorough" {
 		return 1 + c15NPairs + 400000
 	}
-	return 1 + c15NPairs + 8000
+	return 1 + c15NPairs + 25000
 }
 
 func c15Run(c *Case) {
